@@ -5,7 +5,36 @@
 //   invf  <xbits>                  ->  bits(invert(x)) bits(invert(invert(x)))
 #include <boost/gil.hpp>
 #include "harness.hpp"
+#include <thread>
+#include <atomic>
+#include <mutex>
 namespace gil = boost::gil;
+
+// exhaustive sweep of all 2^32 operand pairs of a 16-bit channel type (thorough tier): the C07 Spec clauses
+// (range, within one unit of a*b/max after the shift to the unsigned range, commutativity, monotonicity in b,
+// max is the identity, min the annihilator) are re-implemented here in C++; a reported pair is then
+// re-judged by the Lean judge through an ordinary `mulrc` op, which is the authority.
+template <typename C> std::string mulall() {
+    const long long lo = std::numeric_limits<C>::min(), hi = std::numeric_limits<C>::max(), M = hi - lo;
+    std::atomic<unsigned long long> fails{0}; std::mutex mu; long long fa = 0, fb = 0; bool have = false;
+    unsigned nt = std::max(1u, std::thread::hardware_concurrency());
+    std::vector<std::thread> th;
+    for (unsigned t = 0; t < nt; ++t) th.emplace_back([&, t] {
+        for (long long a = lo + t; a <= hi; a += nt) {
+            long long prev = lo;
+            for (long long b = lo; b <= hi; ++b) {
+                long long r = gil::channel_multiply(C(a), C(b)), r2 = gil::channel_multiply(C(b), C(a));
+                long long a1 = a - lo, b1 = b - lo, r1 = r - lo, d = r1 * M - a1 * b1;
+                bool bad = r < lo || r > hi || !(d > -M && d < M) || r != r2 || r < prev
+                        || (b1 == M && r != a) || (a1 == M && r != b) || ((a1 == 0 || b1 == 0) && r1 != 0);
+                prev = r;
+                if (bad) { ++fails; std::lock_guard<std::mutex> g(mu); if (!have || a < fa || (a == fa && b < fb)) { have = true; fa = a; fb = b; } }
+            }
+        }
+    });
+    for (auto& x : th) x.join();
+    return "fails=" + std::to_string(fails.load()) + " first=" + (have ? std::to_string(fa) + "," + std::to_string(fb) : std::string("none"));
+}
 
 template <typename C> static long long as_ll(C const& c) {
     using base_t = typename gil::base_channel_type<C>::type; return (long long)(base_t)c; }
@@ -56,6 +85,10 @@ int main() {
 #define X(name, T) if (w[1] == name) return inv<T>(x0, n, st);
             TYPES(X)
 #undef X
+        }
+        if (w.size() == 2 && w[0] == "mulall") {
+            if (w[1] == "u16") return mulall<uint16_t>();
+            if (w[1] == "i16") return mulall<int16_t>();
         }
         if (w.size() == 3 && w[0] == "mulf") {
             gil::float32_t a = f_of(hv::to_ull(w[1])), b = f_of(hv::to_ull(w[2]));
